@@ -20,7 +20,7 @@ META = dict(
 )
 RTOL = 1e-6
 EVENTS = [["gpts", [16, 12]], ["gpts", [20, 16]], ["gpts", [12, 12]], ["sampling", 0.2], ["sampling", 0.31], ["build", None], ["build_lazy", None],
-          ["multislice", None]]
+          ["multislice", None], ["getitem", None], ["project", None], ["slices", None]]
 
 
 def check(ctx):
@@ -81,6 +81,12 @@ def replay(proj, atoms, hist, upto=None):
                 got, ref = np.asarray(pot.build(lazy=False).array), ref_built
             elif name == "build_lazy":
                 got, ref = np.asarray(pot.build(lazy=True).compute().array), ref_built
+            elif name == "getitem":  # the indexing route: potential[i] builds and returns slice i
+                got, ref = np.asarray(pot[1].array), ref_built[1:2]
+            elif name == "project":
+                got, ref = np.asarray(pot.project().array), ref_built.sum(axis=0)
+            elif name == "slices":
+                got, ref = np.concatenate([np.asarray(sl.array) for sl in pot.generate_slices()]), ref_built
             else:
                 got, ref = np.asarray(abtem.PlaneWave(energy=100e3).multislice(pot, lazy=False).array), ref_wave
             if got.shape != ref.shape:
